@@ -28,10 +28,10 @@ def place(product, kind):
     """returns (path to pass to open_alos2, cleanup function)"""
     import fsspec
 
-    if kind in ("local", "file"):
-        d = tempfile.mkdtemp(prefix="prod-", dir=common.SCRATCH)
+    if kind in ("local", "file", "local-unicode"):
+        d = tempfile.mkdtemp(prefix="prod-" if kind != "local-unicode" else "prod-donn\u00e9es-\u65e5\u672c-", dir=common.SCRATCH)
         synth.write_product(product, d)
-        path = d if kind == "local" else "file://" + d
+        path = "file://" + d if kind == "file" else d
         return path, lambda: shutil.rmtree(d, ignore_errors=True)
     if kind in ("memory", "tracemem"):
         if kind == "tracemem":
